@@ -153,6 +153,11 @@ func init() {
 		Decides:    "the lock protocol that closes the lost-wake-up window of `await` (the AWAIT instruction tests `settled` under the promise's mutex and hands the held mutex to the worker, which registers the continuation before releasing it; the continuation list is only touched under that mutex; every settlement enqueues the continuations exactly once), and the blocking sends on the pool's own bounded task queue that are reachable from a worker or performed under a promise's mutex - each of the latter is a way for the runtime to deadlock and is reported.",
 		NotCovered: "absence of deadlock and lost wake-ups over all interleavings and queue capacities: that is a model-checking question. The five blocking sends of await/queue-blocking are open known findings (one mechanism, F5).",
 	}
+	props["C23"] = &PropSpec{
+		Rules:      []string{"range/kind-matrix", "native/argrep", "cover/reset"},
+		Decides:    "three agreement conditions of the range and iterator code: for each of the eight range kinds, is_left_closed / is_right_closed answer what the containment test's comparison with Start / End implies; the native ==, contains and friends of ranges (and of every other class) read their `any` argument only through checked accessors; every iterator's Reset re-derives the state its constructor derived from the collection.",
+		NotCovered: "agreement of map, filter, reduce, zip, slicing and range iteration with a list model: relations over element sequences.",
+	}
 	props["C25"] = &PropSpec{
 		Rules:      []string{"effect/mayfatal-unlock", "path/recoverguard", "path/ctx-blocking"},
 		Decides:    "the `errors rather than crashes` half of the property: (1) no unlock of a sync mutex driven by the program can reach the Go runtime's unrecoverable fatal error (every unpaired Unlock/RUnlock is dominated by a test of state the wrapper tracks); (2) every send, close, reflect.Select and wait-group decrement on an object the program holds is either under a deferred recover() or guarded by a tracked counter; (3) the context-aware channel operations are arms of a select that also watches the context.",
